@@ -127,3 +127,85 @@ func TestVerifRace_SharedLineage(t *testing.T) {
 	}
 	r.Finish()
 }
+
+// TestVerif_BulkNotify: one transaction that changes thousands of keys (the number of marked channels passes any internal batching
+// threshold). Get and Prefix channels of every key are taken from the previous tree; when CommitAndNotify (or Commit followed by
+// Notify) has returned all of them and the root channel must be closed; between Commit and Notify none may be (c06r8-2).
+func TestVerif_BulkNotify(t *testing.T) {
+	r := vkit.Start(t, "C12", "bulk-notify", "exploration", "transactions over 3 000-70 000 keys with a Get and a Prefix channel retained per key from the previous tree: insert all, replace all, delete all; "+
+		"Commit+Notify and CommitAndNotify; all channels closed when Notify has returned, none closed before; non-trivial = at least 1 000 channels judged; distinct = (size, step)")
+	r.Require("watch_verdicts", "notified_commits")
+	sizes := []int{3000, 5000, 9000}
+	if vkit.Tier() == "thorough" {
+		sizes = append(sizes, 30000, 70000)
+	}
+	closed := func(c <-chan struct{}) bool {
+		select {
+		case <-c:
+			return true
+		default:
+			return false
+		}
+	}
+	for si, n := range sizes {
+		for _, rootOnly := range []bool{false, true} {
+			var tree part.Tree[int]
+			if rootOnly {
+				tree = part.New[int](part.RootOnlyWatch)
+			} else {
+				tree = part.New[int]()
+			}
+			key := func(i int) []byte { return []byte(fmt.Sprintf("k%06d", i)) }
+			for step, what := range []string{"insert-all", "replace-all", "delete-all"} {
+				var chans []<-chan struct{}
+				for i := 0; i < n; i++ {
+					_, c, _ := tree.Get(key(i))
+					chans = append(chans, c)
+					if i%4 == 0 {
+						_, pc := tree.Prefix(key(i))
+						chans = append(chans, pc)
+					}
+				}
+				chans = append(chans, tree.RootWatch())
+				tx := tree.Txn()
+				for i := 0; i < n; i++ {
+					if what == "delete-all" {
+						tx.Delete(key(i))
+					} else {
+						tx.Insert(key(i), step*n+i)
+					}
+				}
+				early := 0
+				var next part.Tree[int]
+				if step%2 == 0 {
+					next = tx.Commit()
+					for _, c := range chans {
+						if closed(c) {
+							early++
+						}
+					}
+					tx.Notify()
+				} else {
+					next = tx.CommitAndNotify()
+				}
+				open := 0
+				for _, c := range chans {
+					if !closed(c) {
+						open++
+					}
+				}
+				r.Count("notified_commits", 1)
+				r.Count("watch_verdicts", int64(len(chans)))
+				r.Case(vkit.NewHash().Str("bulk").Int(int64(n)).Str(what).Int(int64(si)).Sum(), len(chans) >= 1000)
+				if early > 0 {
+					r.Violation("watch/closed-before-notify/bulk", si, map[string]any{"message": fmt.Sprintf("%d keys, %s, rootOnly=%v: %d channels closed between Commit and Notify", n, what, rootOnly, early)})
+				}
+				if open > 0 {
+					r.Violation("watch/not-closed/bulk", si, map[string]any{"message": fmt.Sprintf("%d keys, %s, rootOnly=%v: %d of %d channels of changed keys (and the root) still open when Notify had returned", n, what, rootOnly, open, len(chans))})
+				}
+				tree = next
+			}
+		}
+	}
+	r.Finish()
+}
